@@ -7,7 +7,9 @@ RULE = ("valid streams of every method (sequential / Edgebreaker standard+valenc
         "DecodeBufferToGeometry / GetEncodedGeometryType / skip-transform, then truncations, byte / bit / 32-bit / varint patterns, multi-site, "
         "version and type rewrites, splices, insertions/deletions; each decode in a forked worker under ASan+UBSan with a watchdog; input "
         "buffer compared before/after; distinct = distinct (bytes, entry point)")
+# the Edgebreaker connectivity decoder state machine is modelled (Model/Edgebreaker.v): its theorems and its tie are part of this check
+SUBCHECKS = ["EB"]
 def run(ctx):
     decsearch.standard(ctx, __import__(__name__), ["C03"], RULE)
 def replay(ctx, path):
-    import json; print(json.dumps(json.load(open(path)), indent=1)[:6000]); return 0
+    return decsearch.replay(ctx, path, ["C03"], __import__(__name__))
